@@ -4,10 +4,15 @@
 (* requirements x <= 2 schemes over {A, B, C} and every outcome assignment; TLC checks     *)
 (* that the final verdict equals the contract SecOK and that the calls made are exactly    *)
 (* ExpectedCalls (a prefix-closed function of the outcomes).                               *)
+(* "U" is a scheme the document does not declare: the code looks a scheme up before asking  *)
+(* the callback; an undeclared one fails its alternative without a call.  UndeclaredAborts  *)
+(* = TRUE is the variant "resolve all schemes of the list up front, fail at the first       *)
+(* undeclared name" -- TLC shows it breaks VerdictIsContract (MC_C07_abort.cfg).            *)
 EXTENDS RequestCheck
+CONSTANT UndeclaredAborts
 
 Schemes == {"A", "B", "C"}
-SortedSeqs == {<<>>, <<"A">>, <<"B">>, <<"C">>, <<"A", "B">>, <<"A", "C">>, <<"B", "C">>}
+SortedSeqs == {<<>>, <<"A">>, <<"B">>, <<"C">>, <<"A", "B">>, <<"A", "C">>, <<"B", "C">>, <<"U">>, <<"A", "U">>, <<"B", "U">>}
 Lists == UNION {[1..n -> SortedSeqs] : n \in 0..3}
 
 VARIABLES es, accepts, ri, si, calls, verdict
@@ -21,13 +26,21 @@ Finish(v) == verdict' = v /\ UNCHANGED <<es, accepts, ri, si, calls>>
 EmptyList == verdict = "running" /\ es = <<>> /\ Finish("ok")
 Exhausted == verdict = "running" /\ es # <<>> /\ ri > Len(es) /\ Finish("rejected")
 ReqSatisfied == verdict = "running" /\ ri <= Len(es) /\ si > Len(es[ri]) /\ Finish("ok")
+Undeclared ==
+   /\ ~UndeclaredAborts /\ verdict = "running" /\ ri <= Len(es) /\ si <= Len(es[ri]) /\ es[ri][si] \notin Declared
+   /\ ri' = ri + 1 /\ si' = 1 /\ UNCHANGED <<es, accepts, verdict, calls>>
+UpFront ==      \* the variant: before anything else, every name of the list is resolved
+   /\ UndeclaredAborts /\ verdict = "running" /\ ri = 1 /\ si = 1 /\ calls = <<>>
+   /\ \E i \in DOMAIN es : \E j \in DOMAIN es[i] : es[i][j] \notin Declared
+   /\ Finish("rejected")
 Call ==
-   /\ verdict = "running" /\ ri <= Len(es) /\ si <= Len(es[ri])
+   /\ verdict = "running" /\ ri <= Len(es) /\ si <= Len(es[ri]) /\ es[ri][si] \in Declared
+   /\ ~(UndeclaredAborts /\ \E i \in DOMAIN es : \E j \in DOMAIN es[i] : es[i][j] \notin Declared)
    /\ calls' = Append(calls, es[ri][si])
    /\ IF es[ri][si] \in accepts THEN si' = si + 1 /\ ri' = ri
       ELSE ri' = ri + 1 /\ si' = 1                        \* abandon this requirement
    /\ UNCHANGED <<es, accepts, verdict>>
-Next == EmptyList \/ Exhausted \/ ReqSatisfied \/ Call
+Next == EmptyList \/ Exhausted \/ ReqSatisfied \/ Call \/ Undeclared \/ UpFront
 Spec == Init /\ [][Next]_vars
 
 C == [opSec |-> [list |-> es], docSec |-> <<>>, accepts |-> accepts]
